@@ -35,7 +35,7 @@ func tmpDB(name string) (string, func()) {
 
 // rawDB opens a second, plain connection to a store's database file (fault triggers, dumps, pre-states).
 func rawDB(path string) *sql.DB {
-	d, err := sql.Open("sqlite3", "file:"+path+"?_busy_timeout=5000&_foreign_keys=on")
+	d, err := sql.Open("sqlite3", "file:"+path+"?_busy_timeout=250&_foreign_keys=on")
 	if err != nil {
 		panic(err)
 	}
@@ -60,7 +60,7 @@ func dumpTables(path string, skipSuffix ...string) map[string][]string {
 	rows.Close()
 	out := map[string][]string{}
 	for _, n := range names {
-		skip := n == "gorp_migrations"
+		skip := n == "gorp_migrations" || strings.HasPrefix(n, "vf_")
 		for _, s := range skipSuffix {
 			if strings.HasSuffix(n, s) {
 				skip = true
